@@ -13,6 +13,7 @@ import copy
 import gc
 import hashlib
 import pickle
+import warnings
 import weakref
 from collections import OrderedDict, defaultdict, deque
 
@@ -151,7 +152,27 @@ def observe(spec, sentinels):
         'one_level': repr(spec.one_level()), 'counts': (spec.num_leaves, spec.num_nodes, spec.num_children),
         'meta': (spec.none_is_leaf, spec.namespace, repr(spec.kind), getattr(spec.type, '__name__', None)),
         'entry': [repr(spec.entry(i)) for i in range(len(ch))], 'unflatten': un, 'self_eq': spec == spec,
+        'up_to_self': up_to_self(spec, sentinels),
     }
+
+
+def up_to_self(spec, sentinels):
+    """A treespec accepts the tree it builds itself and hands its leaves back, whatever the registry looks like NOW: the kinds
+    of its nodes were decided when it was made."""
+    if 'CustomTreeNode(' in repr(spec):
+        # a CUSTOM node is matched against the registration that is live NOW (pointer and metadata): once its type was
+        # unregistered or registered anew the treespec refuses every tree at that node.  A refusal pairs nothing wrongly and the
+        # property does not promise acceptance; only the built-in kinds have no such dependence, so only they are observed here
+        return 'n/a: custom node'
+    try:
+        rebuilt = spec.unflatten(sentinels)
+    except Exception as e:  # noqa: BLE001
+        return ('unflatten raised', type(e).__name__)
+    try:
+        got = spec.flatten_up_to(rebuilt)
+    except Exception as e:  # noqa: BLE001
+        return ('flatten_up_to raised', type(e).__name__, str(e)[:80])
+    return ('ok', len(got) == len(sentinels) and all(a is b for a, b in zip(got, sentinels)))
 
 
 def diff_obs(a, b):
@@ -176,6 +197,7 @@ def run_job(job, io):
 
 def _run_body(job, io, tape):
     U.HOOK = None
+    warnings.simplefilter('ignore', UserWarning)  # (re-)registering a namedtuple / struct-sequence class warns; one run = one forked child
     violations, keys, probes = [], set(), collections.Counter()
     oplog = []
     reg = Registry()
@@ -619,12 +641,24 @@ def _run_body(job, io, tape):
                         if d:
                             viol('input-mutated', site, 'operand %s changed: %s' % (nm, d))
             elif kind == 'registry':
-                how = tape.choice(('unregister', 'reregister_same', 'reregister_other', 'register_global'), 'rhow')
+                how = tape.choice(('unregister', 'reregister_same', 'reregister_other', 'register_global', 'register_ntlike'), 'rhow')
                 detail = how
                 site = 'registry:' + how
                 io.progress({'site': site, 'tape': tape.values})
                 live = [x for x in reg.live]
-                if live:
+                if how == 'register_ntlike':
+                    # a FIRST registration of a class that live treespecs only mention as a built-in node (namedtuple classes,
+                    # a struct sequence type): new flattens see a custom node, the old treespecs stay what they were
+                    cls = tape.choice((U.NT1, U.NT2, U.NT3, U.TNT, U.NTM, U.STRUCTSEQ_TYPES[0]), 'ntlike')
+                    rns = (ns, GLOBAL)[tape.draw(2, 'ntlike-ns')]
+                    with warnings.catch_warnings():
+                        warnings.simplefilter('ignore')
+                        try:
+                            reg.register(cls, rns, style=(0, 2)[tape.draw(2, 'ntlike-style')])
+                            probes['registered-ntlike'] += 1
+                        except ValueError:
+                            outcome = 'dup'
+                elif live:
                     cls, rns, f = live[tape.draw(len(live), 'rcls')]
                     if how == 'unregister':
                         optree.unregister_pytree_node(cls, namespace=rns)
@@ -635,10 +669,18 @@ def _run_body(job, io, tape):
                     elif how == 'reregister_other':
                         optree.unregister_pytree_node(cls, namespace=rns)
                         reg.live.remove((cls, rns, f))
-                        reg.register(cls, rns, style=tape.draw(4, 'style2'), path_entry_type=fresh_entry_type(tape))
+                        st2 = tape.draw(4, 'style2')
+                        if isinstance(cls, type) and issubclass(cls, tuple):
+                            st2 = (0, 2)[st2 % 2]  # no custom entries: the default entry type of a namedtuple indexes by position
+                        reg.register(cls, rns, style=st2, path_entry_type=fresh_entry_type(tape) if not issubclass(cls, tuple) else None)
                     else:
                         try:
-                            reg.register(cls, GLOBAL, style=tape.draw(4, 'style3'))
+                            st3 = tape.draw(4, 'style3')
+                            if isinstance(cls, type) and issubclass(cls, tuple):
+                                st3 = (0, 2)[st3 % 2]
+                            with warnings.catch_warnings():
+                                warnings.simplefilter('ignore')
+                                reg.register(cls, GLOBAL, style=st3)
                         except ValueError:
                             outcome = 'dup'
                 else:
